@@ -52,8 +52,9 @@ def run(chk, replay=None):
     rng = random.Random(chk.seed)
     rules = tables.enum_members(open('/repo/src/api/libcellml/issue.h').read(), 'ReferenceRule')
     stats = {'worlds': 0, 'exhaustive_small': 0, 'random': 0, 'faulted': 0, 'repairs': 0, 'resolvable': 0, 'unresolvable': 0, 'excluded_file_cycles': 0, 'dangling_either': 0,
-             'repair_without_clearing_fails': 0, 'why': {}}
+             'repair_without_clearing_fails': 0, 'known_below_local_units': 0, 'why': {}}
     oracle, corr = [], []
+    kf = {f['id']: f for f in known_findings()['findings'] if f['property'] == 'C07'}
     wd = tempfile.mkdtemp(prefix='c07-')
     try:
         cases = []          # (world, label, faulted-from or None)
@@ -61,6 +62,10 @@ def run(chk, replay=None):
             r = json.load(open(replay))
             cases = [(r['world'], 'replay', r.get('repaired'))]
         else:
+            # the input of known finding C07-imports-below-local-units, always replayed
+            cases.append(({'f0.cellml': W.model([], [W.C('c0', imp=('f1.cellml', 'c0'))]),
+                           'f1.cellml': W.model([W.U('u0', kids=['u1']), W.U('u1', imp=('f2.cellml', 'u0'))], [W.C('c0', units=['u0'])]),
+                           'f2.cellml': W.model([W.U('u0')])}, 'probe', None))
             small = list(itertools.chain(W.small_units_worlds(2, 2), W.small_comp_worlds(2, 2), W.small_units_worlds(3, 1), W.small_comp_worlds(3, 1)))
             if chk.tier == 'quick':
                 small = rng.sample(small, 500)
@@ -91,6 +96,19 @@ def run(chk, replay=None):
             fl = o[4].split()[1]
             fiss = issues(o[4], rules)
             strict_, lenient = W.resolvable(w, ORIGIN), W.resolvable(w, ORIGIN, dangling_ok=True)
+            below = W.unvisited_imports(w, ORIGIN)
+            if below and 'C07-imports-below-local-units' in kf:
+                # the importer never looks below a units that is not imported: status and hasUnresolvedImports() are not
+                # compared with the oracle for such a world (termination, issues on failure and the Lean model still are)
+                stats['known_below_local_units'] += 1
+                if got and unres:
+                    chk.known_finding(kf['C07-imports-below-local-units']['what'])
+                if not got:
+                    errs = [i for i in iss if i[0] == 0]
+                    if not errs:
+                        oracle.append(('resolveImports returned false without an error issue (%s)' % label, rec)); continue
+                lines.append(W.wire(w, ORIGIN)); metas.append((rec, got, [WHY.get(i[1], i[1]) for i in iss if i[0] == 0]))
+                continue
             excluded = W.file_cycle(w, ORIGIN) and not W.entity_cycle(w, ORIGIN)
             if excluded:
                 stats['excluded_file_cycles'] += 1
@@ -134,7 +152,7 @@ def run(chk, replay=None):
                 fresh = o2[k - 2].split()[1] == '1'
                 if exp and not again:
                     stats['repair_without_clearing_fails'] += 1
-                if not ex2 and exp == W.resolvable(repaired, ORIGIN, True) and fresh != exp:
+                if not ex2 and exp == W.resolvable(repaired, ORIGIN, True) and fresh != exp and not (W.unvisited_imports(repaired, ORIGIN) and kf):
                     oracle.append(('after the fault (%s) is repaired and the library emptied, a fresh resolveImports on the same importer returns %s, expected %s' % (label, fresh, exp), rec)); continue
     finally:
         shutil.rmtree(wd, ignore_errors=True)
